@@ -41,6 +41,9 @@ pub assume_specification<T: Default>[ core::mem::take::<T> ](dest: &mut T) -> (r
     ensures r == *old(dest);
 pub assume_specification<T>[ core::mem::replace::<T> ](dest: &mut T, src: T) -> (r: T)
     ensures r == *old(dest), *final(dest) == src;
+pub assume_specification<T, U, F: FnOnce(T) -> U>[ Option::<T>::map_or ](o: Option<T>, default: U, f: F) -> (r: U)
+    requires o is Some ==> call_requires(f, (o.unwrap(),)),
+    ensures o is None ==> r == default, o is Some ==> call_ensures(f, (o.unwrap(),), r);
 pub assume_specification[ isize::unsigned_abs ](x: isize) -> (r: usize)
     ensures r as int == (if x >= 0 { x as int } else { -(x as int) });
 
